@@ -22,7 +22,7 @@ var artifactPool = []string{
 var pomScopes = []string{"", "", "", "test", "runtime", "provided", "compile", "system", "import"}
 var gradleConfs = []string{"implementation", "implementation", "api", "compileOnly", "runtimeOnly", "testImplementation", "testRuntimeOnly",
 	"annotationProcessor", "developmentOnly", "compile", "testCompile", "integrationTestImplementation"}
-var pomSections = []string{"coords", "parent", "meta", "properties", "depMgmt", "build", "profiles", "modules", "repositories", "comment"}
+var pomSections = []string{"coords", "parent", "meta", "properties", "depMgmt", "build", "profiles", "modules", "repositories", "comment", "reporting"}
 var gradleBlocks = []string{"plugins", "apply", "coords", "repositories", "repourl", "buildscript", "configurations", "ext", "test", "task", "jar", "comment"}
 
 func isJavaPackage(g string) bool {
